@@ -40,7 +40,7 @@ def actualcall_routing_rule(prog, run, rid):
     # ---------------- R12 ---------------------------------------------------
     # "every parameter ... value": whether two parameter values are the same value is MockNamedValue::equals (shared with C09.R1-R3)
     from .C09 import integer_equality_rules
-    integer_equality_rules(prog, run, "R12", "R12", "R12")
+    integer_equality_rules(prog, run, "R12", "R12", "R12", thorough=(run.tier == "thorough"))
 
     # ---------------- R11 ---------------------------------------------------
     # MockSupport::actualCall folded over (previous call pending, enabled, tracing, call ignored): the previous call is
@@ -150,20 +150,20 @@ def check(ctx, run):
                 got, why = None, "cannot fold: %s" % u
             want = [k for k in range(1, n + 1) if k not in nulls]
             run.ob("R3", "pruneEmptyNodeFromList on %d nodes with emptied %s" % (n, list(nulls)), pr.site, got == want, witness={"remaining": got}, what=why or ("" if got == want else "remaining %s, expected %s" % (got, want)))
+    ELINL = {g.qn for g in prog.functions.values() if g.qn.startswith(EL + "::")}      # helpers of the list are transparent
     for name, (pred, keep_when) in sorted(ONLYKEEP.items()):
         f = prog.fn(EL + "::" + name)
         run.analysed(f)
-        asked = sorted({(prog.callee_name(f, c) or "").split("::")[-1] for c in f.calls() if (prog.callee_name(f, c) or "").startswith(EC + "::") and not (prog.callee_name(f, c) or "").endswith("resetActualCallMatchingState")})
-        run.ob("R3", "%s asks %s" % (name, pred), f.site, asked == [pred], witness=asked, what="" if asked == [pred] else "the primitive prunes by %s" % asked)
+        asked_ = set()
         for n in range(0, 4):
             for pat in itertools.product((0, 1), repeat=n):
                 ev = Evaluator(prog, f, env=dict(list_env(n), **{q["name"]: 7 for q in f.params}))
                 ev.heap_mode = True
                 ev.pass_object = True
-                ev.inline = {EL + "::pruneEmptyNodeFromList"}
+                ev.inline = ELINL
                 resets = []
                 for meth in {v[0] for v in ONLYKEEP.values()}:
-                    ev.calls[EC + "::" + meth] = lambda o, *a, pat=pat: (pat[o - 101] if o and 101 <= o <= 100 + len(pat) else None)
+                    ev.calls[EC + "::" + meth] = lambda o, *a, pat=pat, meth=meth, asked_=asked_: (asked_.add(meth), pat[o - 101] if o and 101 <= o <= 100 + len(pat) else None)[1]
                 ev.calls[EC + "::resetActualCallMatchingState"] = lambda o, resets=resets: (resets.append(o), 0)[1]
                 try:
                     ev.run_blocks(f.entry, max_steps=1500)
@@ -177,6 +177,8 @@ def check(ctx, run):
                     ok = sorted(resets) == [100 + k for k in range(1, n + 1) if pat[k - 1]]
                     why = "" if ok else "matching state reset for %s" % resets
                 run.ob("R3", "%s on %d expectations, predicate %s" % (name, n, list(pat)), f.site, ok, witness={"kept": got, "expected": want}, what=why or ("" if ok else "keeps %s, expected %s" % (got, want)))
+        asked = sorted(asked_)
+        run.ob("R3", "%s asks %s" % (name, pred), f.site, asked == [pred], witness=asked, what="" if asked == [pred] else "the primitive prunes by %s" % asked)
     for name, pred, removes in (("removeFirstFinalizedMatchingExpectation", "isMatchingActualCallAndFinalized", True), ("removeFirstMatchingExpectation", "isMatchingActualCall", True), ("getFirstMatchingExpectation", "isMatchingActualCall", False)):
         f = prog.fn(EL + "::" + name)
         run.analysed(f)
@@ -185,7 +187,7 @@ def check(ctx, run):
                 ev = Evaluator(prog, f, env=list_env(n))
                 ev.heap_mode = True
                 ev.pass_object = True
-                ev.inline = {EL + "::pruneEmptyNodeFromList"}
+                ev.inline = ELINL
                 ev.calls[EC + "::" + pred] = lambda o, *a, pat=pat: (pat[o - 101] if o and 101 <= o <= 100 + len(pat) else None)
                 try:
                     ev.run_blocks(f.entry, max_steps=1500)
